@@ -223,6 +223,11 @@ where
                 _ => {}
             }
         };
+        let mut proved_refused_bool = proved_refused_bool;
+        if let Some(ext) = &extension {
+            // the cached extension is handed out as the counterexample of every argument cached as refused: it must omit them
+            ext.iter().for_each(|a| proved_refused_bool[a.id()] = false);
+        }
         let proved_accepted = bool_slice_to_labels(&proved_accepted_bool);
         let proved_refused = bool_slice_to_labels(&proved_refused_bool);
         std::mem::drop(computer);
